@@ -623,6 +623,22 @@ theorem mpf_add_err (prec : ℕ) (hp : 2 ≤ prec) (u v : F) (hu : OpWF u) (hv :
     (toQ u + toQ v ≠ 0 → |toQ (add prec rIsU rIsV u v) - (toQ u + toQ v)| < eps prec * |toQ u + toQ v|) :=
   add_accurate prec hp u v hu hv rIsU rIsV hau hav
 
+/-- mpf_sub is exact whenever both operands and the exact difference fit in p bits.
+    (Window argument: the result and the exact value are both multiples of the unit of the precision window and
+    less than one unit apart — `exact_of_win`.) -/
+theorem mpf_sub_exact_if_fits (prec : ℕ) (hp : 2 ≤ prec) (u v : F) (hu : OpWF u) (hv : OpWF v) (rIsU rIsV : Bool)
+    (fu : Fits (toQ u) (PREC_TO_BITS prec)) (fv : Fits (toQ v) (PREC_TO_BITS prec))
+    (fe : Fits (toQ u - toQ v) (PREC_TO_BITS prec)) :
+    toQ (sub prec rIsU rIsV u v) = toQ u - toQ v :=
+  sub_exact prec hp u v hu hv rIsU rIsV fu fv fe
+
+/-- mpf_add is exact whenever both operands and the exact sum fit in p bits (all sign combinations). -/
+theorem mpf_add_exact_if_fits (prec : ℕ) (hp : 2 ≤ prec) (u v : F) (hu : OpWF u) (hv : OpWF v) (rIsU rIsV : Bool)
+    (fu : Fits (toQ u) (PREC_TO_BITS prec)) (fv : Fits (toQ v) (PREC_TO_BITS prec))
+    (fe : Fits (toQ u + toQ v) (PREC_TO_BITS prec)) :
+    toQ (add prec rIsU rIsV u v) = toQ u + toQ v :=
+  add_exact prec hp u v hu hv rIsU rIsV fu fv fe
+
 /-- mpf_sub_ui (w < 2^64). -/
 theorem mpf_sub_ui_err (prec : ℕ) (hp : 2 ≤ prec) (u : F) (w : ℕ) (hu : OpWF u) (hw : w < B) (rIsU : Bool)
     (hau : rIsU = true → u.d.length ≤ prec + 1) :
